@@ -168,3 +168,8 @@ Definition check_C20 (c : c20_case) : bool :=
       | _, _ => false
       end
   end.
+
+(* a record of the harness = one plot call, or a sequence of calls that share caller-side objects
+   (style dictionaries, lists, Axes, the field): every call is checked against ITS OWN field *)
+Definition c20_top := list c20_case.
+Definition check_C20_top (l : c20_top) : bool := forallb check_C20 l.
